@@ -317,6 +317,7 @@ func (c *Ctx) writesThroughParam(fn *ssa.Function, idx int, depth int) []ssa.Ins
 		return nil
 	}
 	derived := map[ssa.Value]bool{fn.Params[idx]: true}
+	spill := map[ssa.Value]bool{}
 	var sites []ssa.Instruction
 	changed := true
 	for changed {
@@ -334,6 +335,36 @@ func (c *Ctx) writesThroughParam(fn *ssa.Function, idx int, depth int) []ssa.Ins
 						derived[x] = true
 						changed = true
 					}
+				case *ssa.ChangeType: // (*uint64)(s): the same memory under another pointer type
+					if derived[x.X] && !derived[x] {
+						derived[x] = true
+						changed = true
+					}
+				case *ssa.Convert:
+					if _, isPtr := x.Type().Underlying().(*types.Pointer); isPtr && derived[x.X] && !derived[x] {
+						derived[x] = true
+						changed = true
+					}
+				case *ssa.Phi: // p := i; if … { p = &other }: may be the receiver
+					if !derived[x] {
+						for _, ed := range x.Edges {
+							if derived[ed] {
+								derived[x] = true
+								changed = true
+							}
+						}
+					}
+				case *ssa.Store: // the receiver spilled into a cell (captured by a closure): loads of the cell are the receiver
+					if derived[x.Val] {
+						if a, ok := x.Addr.(*ssa.Alloc); ok && !derived[a] {
+							spill[a] = true
+						}
+					}
+				case *ssa.UnOp:
+					if x.Op == token.MUL && spill[x.X] && !derived[x] {
+						derived[x] = true
+						changed = true
+					}
 				}
 			}
 		}
@@ -344,6 +375,18 @@ func (c *Ctx) writesThroughParam(fn *ssa.Function, idx int, depth int) []ssa.Ins
 			case *ssa.Store:
 				if derived[x.Addr] {
 					sites = append(sites, in)
+				}
+			case *ssa.MakeClosure:
+				// a closure that captures the receiver (its cell): stores through it inside the closure count at the
+				// place the closure is created (a deferred closure runs on every return, error returns included)
+				cl, ok := x.Fn.(*ssa.Function)
+				if !ok {
+					continue
+				}
+				for bi, bv := range x.Bindings {
+					if (derived[bv] || spill[bv]) && bi < len(cl.FreeVars) && closureWritesThrough(cl, cl.FreeVars[bi], spill[bv]) {
+						sites = append(sites, in)
+					}
 				}
 			case *ssa.Call:
 				callee := c.StaticCallee(&x.Call)
@@ -361,6 +404,81 @@ func (c *Ctx) writesThroughParam(fn *ssa.Function, idx int, depth int) []ssa.Ins
 		}
 	}
 	return sites
+}
+
+// closureWritesThrough: the closure body stores through free variable fv (the pointer itself, or — cell — a cell
+// holding the pointer).
+func closureWritesThrough(cl *ssa.Function, fv *ssa.FreeVar, cell bool) bool {
+	derived := map[ssa.Value]bool{}
+	if !cell {
+		derived[fv] = true
+	}
+	for changed := true; changed; {
+		changed = false
+		for _, b := range cl.Blocks {
+			for _, in := range b.Instrs {
+				switch x := in.(type) {
+				case *ssa.UnOp:
+					if cell && x.Op == token.MUL && x.X == ssa.Value(fv) && !derived[x] {
+						derived[x] = true
+						changed = true
+					}
+				case *ssa.FieldAddr:
+					if derived[x.X] && !derived[x] {
+						derived[x] = true
+						changed = true
+					}
+				case *ssa.IndexAddr:
+					if derived[x.X] && !derived[x] {
+						derived[x] = true
+						changed = true
+					}
+				case *ssa.ChangeType:
+					if derived[x.X] && !derived[x] {
+						derived[x] = true
+						changed = true
+					}
+				}
+			}
+		}
+	}
+	for _, b := range cl.Blocks {
+		for _, in := range b.Instrs {
+			if st, ok := in.(*ssa.Store); ok && derived[st.Addr] {
+				return true
+			}
+		}
+	}
+	return false
+}
+
+// nilOnEdge: the error value v is nil when control comes from pred: the nil constant, or a value a dominating
+// branch of pred established to be nil (`if err == nil { … }`).
+func nilOnEdge(v ssa.Value, pred *ssa.BasicBlock) bool {
+	if isNilConst(v) {
+		return true
+	}
+	for d := pred; d != nil; d = d.Idom() {
+		id := d.Idom()
+		if id == nil {
+			break
+		}
+		iff, ok := id.Instrs[len(id.Instrs)-1].(*ssa.If)
+		if !ok {
+			continue
+		}
+		bo, ok := iff.Cond.(*ssa.BinOp)
+		if !ok || !(bo.X == v && isNilConst(bo.Y) || bo.Y == v && isNilConst(bo.X)) {
+			continue
+		}
+		t, f := id.Succs[0], id.Succs[1]
+		viaT := (t == d || t.Dominates(d)) && len(t.Preds) == 1
+		viaF := (f == d || f.Dominates(d)) && len(f.Preds) == 1
+		if bo.Op == token.EQL && viaT && !viaF || bo.Op == token.NEQ && viaF && !viaT {
+			return true
+		}
+	}
+	return false
 }
 
 func (c *Ctx) RuleStoreThenError(fns []*ssa.Function) {
@@ -389,11 +507,38 @@ func (c *Ctx) RuleStoreThenError(fns []*ssa.Function) {
 				if b == blk && !reachFrom(blk)[blk] {
 					// same block: s precedes ret trivially
 				}
-				if !isNilConst(ret.Results[len(ret.Results)-1]) {
-					c.add("violated", "C17.store", fn, s.Pos(), fmt.Sprintf("store through receiver can reach error return at line %d", c.Prog.Fset.Position(ret.Pos()).Line))
-					bad = true
+				errv := ReturnValues(ret)[len(ret.Results)-1]
+				if isNilConst(errv) {
+					continue
 				}
+				// a merged error value: only the edges that carry a possibly non-nil error and that the store can reach count
+				if ph, isPhi := errv.(*ssa.Phi); isPhi && ph.Block() == b {
+					reaches := false
+					from := reachFrom(blk)
+					for i, ed := range ph.Edges {
+						p := b.Preds[i]
+						if nilOnEdge(ed, p) {
+							continue
+						}
+						if p == blk || from[p] {
+							reaches = true
+						}
+					}
+					if !reaches {
+						continue
+					}
+				} else if nilOnEdge(errv, b) {
+					continue
+				}
+				c.add("violated", "C17.store", fn, s.Pos(), fmt.Sprintf("store through receiver can reach error return at line %d", c.Prog.Fset.Position(ret.Pos()).Line))
+				bad = true
 			}
+		}
+		if len(sites) == 0 {
+			// a method that decodes into its receiver stores through it somewhere: finding no store at all means the
+			// analysis lost the receiver (an idiom it does not follow), not that the method is safe
+			c.add("undecided", "C17.store", fn, fn.Pos(), "no store through the receiver found in a method that decodes into it: the receiver escapes the tracked forms (fields, elements, pointer conversions, merges, captured cell, callees of the module)")
+			continue
 		}
 		if !bad {
 			c.add("discharged", "C17.store", fn, fn.Pos(), fmt.Sprintf("%d receiver store site(s), none reaches an error return", len(sites)))
@@ -547,15 +692,21 @@ func (c *Ctx) RuleLock(pkg *ssa.Package, varName, muName string) {
 						c.add("violated", "C19.lock", fn, r.Pos(), varName+" escapes (not a method call receiver)")
 						continue
 					}
-					// only drawing methods: re-seeding the shared generator restarts or repeats its stream within a run
-					if f := call.Call.StaticCallee(); (f == nil || f.Name() == "Seed") && !freshClockSeed(call) {
-						c.addc("violated", "C19.lock", fn, r.Pos(), "reseed", "the shared generator is re-seeded after initialisation ("+varName+".Seed) with something other than a clock reading taken at that moment: the stream restarts, IDs already handed out can be produced again within the run", "")
+					// only drawing methods: re-seeding the shared generator restarts its stream within a run — with a seed
+					// installed before, or with a clock reading that two re-seedings can share (a per-call
+					// Seed(time.Now().Unix()) repeats the same IDs for a whole second)
+					if f := call.Call.StaticCallee(); f == nil || f.Name() == "Seed" {
+						c.addc("violated", "C19.lock", fn, r.Pos(), "reseed", "the shared generator is re-seeded after initialisation ("+varName+".Seed): the stream restarts, and IDs already handed out are produced again whenever two seeds coincide (a clock reading taken twice within its resolution, a saved seed)", "random.Seed(time.Now().Unix()) on every call: 1000 draws, 2 distinct IDs")
+					}
+					// the call itself runs with the lock held (the value may have been loaded under the lock and used later)
+					if !c.lockHeldAt(fn, call, mu) {
+						c.add("violated", "C19.lock", fn, call.Pos(), "the generator's method is called while "+muName+" is not held on every path (loaded under the lock, used after Unlock?)")
 					}
 				}
-				// dominated by Lock on mu, and fn has deferred Unlock on mu
-				if !c.lockDominates(fn, in, mu) {
-					c.add("violated", "C19.lock", fn, in.Pos(), "access to "+varName+" not dominated by "+muName+".Lock()")
-				} else if !c.hasDeferredUnlock(fn, mu) && !c.unlockOnEveryPath(fn, in, mu) {
+				// the load happens with the lock held on every path, and fn has deferred Unlock on mu
+				if !c.lockHeldAt(fn, in, mu) {
+					c.add("violated", "C19.lock", fn, in.Pos(), "access to "+varName+" while "+muName+" is not held on every path reaching it")
+				} else if !c.releasedAfter(fn, in, mu) {
 					c.add("violated", "C19.lock", fn, in.Pos(), "the mutex is not released on every path after the access (no deferred "+muName+".Unlock(), and some path to a return passes no Unlock)")
 				} else {
 					c.add("discharged", "C19.lock", fn, in.Pos(), "access to "+varName+" under "+muName)
@@ -580,6 +731,120 @@ func isMutexCall(in ssa.Instruction, mu *ssa.Global, name string) bool {
 	}
 	f := cc.StaticCallee()
 	return f != nil && f.String() == "(*sync.Mutex)."+name && len(cc.Args) == 1 && cc.Args[0] == mu
+}
+
+// lockHeldAt: must-held analysis of mu over fn's flow graph: entering fn the lock is held only if fn is an unexported
+// function of the module all of whose call sites hold it (one level); Lock sets, Unlock clears (a deferred Unlock
+// does not clear inside the body), a merge holds only what every predecessor holds. True if mu is held at `at`.
+func (c *Ctx) lockHeldAt(fn *ssa.Function, at ssa.Instruction, mu *ssa.Global) bool {
+	return c.lockHeld(fn, at, mu, 0)
+}
+
+func (c *Ctx) lockHeld(fn *ssa.Function, at ssa.Instruction, mu *ssa.Global, depth int) bool {
+	entry := false
+	if depth < 2 && fn.Object() != nil && !fn.Object().Exported() && fn.Parent() == nil {
+		sites, all := 0, true
+		for caller := range c.AllRepoFuncs() {
+			for _, b := range caller.Blocks {
+				for _, in := range b.Instrs {
+					call, ok := in.(ssa.CallInstruction)
+					if !ok {
+						continue
+					}
+					if f := c.StaticCallee(call.Common()); f == nil || origin(f) != origin(fn) {
+						continue
+					}
+					if _, isCall := in.(*ssa.Call); !isCall { // go / defer: runs at another time
+						all = false
+						continue
+					}
+					sites++
+					if !c.lockHeld(caller, in, mu, depth+1) {
+						all = false
+					}
+				}
+			}
+		}
+		entry = sites > 0 && all
+	}
+	in := map[*ssa.BasicBlock]bool{}
+	out := map[*ssa.BasicBlock]bool{}
+	for _, b := range fn.Blocks {
+		in[b], out[b] = true, true // optimistic start for the must-analysis
+	}
+	transfer := func(b *ssa.BasicBlock, held bool, stopAt ssa.Instruction) (bool, bool) {
+		for _, i := range b.Instrs {
+			if i == stopAt {
+				return held, true
+			}
+			if _, isCall := i.(*ssa.Call); isCall {
+				switch {
+				case isMutexCall(i, mu, "Lock"):
+					held = true
+				case isMutexCall(i, mu, "Unlock"):
+					held = false
+				}
+			}
+		}
+		return held, false
+	}
+	for changed := true; changed; {
+		changed = false
+		for _, b := range fn.Blocks {
+			h := true
+			if b == fn.Blocks[0] {
+				h = entry
+			}
+			for _, p := range b.Preds {
+				h = h && out[p]
+			}
+			if len(b.Preds) == 0 && b != fn.Blocks[0] {
+				h = false
+			}
+			o, _ := transfer(b, h, nil)
+			if h != in[b] || o != out[b] {
+				in[b], out[b] = h, o
+				changed = true
+			}
+		}
+	}
+	h, found := transfer(at.Block(), in[at.Block()], at)
+	return found && h
+}
+
+// releasedAfter: the mutex is released on every path after `at`: a deferred Unlock in fn, an Unlock on every path to
+// fn's exits — or, where fn itself never locks (the lock is held by its callers, see lockHeld), the same at every call
+// site of fn.
+func (c *Ctx) releasedAfter(fn *ssa.Function, at ssa.Instruction, mu *ssa.Global) bool {
+	if c.hasDeferredUnlock(fn, mu) || c.unlockOnEveryPath(fn, at, mu) {
+		return true
+	}
+	for _, b := range fn.Blocks {
+		for _, in := range b.Instrs {
+			if _, ok := in.(*ssa.Call); ok && isMutexCall(in, mu, "Lock") {
+				return false // fn locks itself and does not release
+			}
+		}
+	}
+	sites := 0
+	for caller := range c.AllRepoFuncs() {
+		for _, b := range caller.Blocks {
+			for _, in := range b.Instrs {
+				call, ok := in.(*ssa.Call)
+				if !ok {
+					continue
+				}
+				if f := c.StaticCallee(&call.Call); f == nil || origin(f) != origin(fn) {
+					continue
+				}
+				sites++
+				if !c.hasDeferredUnlock(caller, mu) && !c.unlockOnEveryPath(caller, call, mu) {
+					return false
+				}
+			}
+		}
+	}
+	return sites > 0
 }
 
 func (c *Ctx) lockDominates(fn *ssa.Function, at ssa.Instruction, mu *ssa.Global) bool {
